@@ -52,6 +52,41 @@ def _file_write_sites(ctx):
     return out
 
 
+def _file_write_sites_ext(ctx):
+    """_file_write_sites plus calls of same-class helpers that write their parameter to the file (`self._write_text(text)`):
+    such a call is a write of its argument at the call site."""
+    base = _file_write_sites(ctx)
+    out = list(base)
+    writers = {}
+    for f, call, what in base:
+        if not what.endswith(".write") or not call.args or not isinstance(call.args[0], ast.Name) or f.cls is None:
+            continue
+        a = call.args[0].id
+        param = None
+        if a in f.params[1:]:
+            param = a
+        else:
+            for loop in walk_local(f.node):
+                if isinstance(loop, ast.For) and isinstance(loop.target, ast.Name) and loop.target.id == a and isinstance(loop.iter, ast.Call) and isinstance(loop.iter.func, ast.Attribute) and isinstance(loop.iter.func.value, ast.Name) and loop.iter.func.value.id in f.params[1:]:
+                    param = loop.iter.func.value.id
+        if param is not None:
+            writers.setdefault(f.fq, (f, set()))[1].add(param)
+    for fq, (h, params) in writers.items():
+        if len(params) != 1:
+            continue
+        pidx = h.params.index(next(iter(params))) - 1
+        for f in ctx.repo.all_functions():
+            if f.cls is not h.cls or f is h:
+                continue
+            for c in walk_local(f.node):
+                if isinstance(c, ast.Call) and isinstance(c.func, ast.Attribute) and isinstance(c.func.value, ast.Name) and c.func.value.id == "self" and c.func.attr == h.name and len(c.args) > pidx:
+                    synth = ast.Call(func=c.func, args=[c.args[pidx]], keywords=[])
+                    ast.copy_location(synth, c)
+                    f.module.parent_of[synth] = f.module.parent_of.get(c)
+                    out.append((f, c if pidx == 0 and len(c.args) == 1 else synth, f"self.{h.name}->file.write"))
+    return out
+
+
 def r11_1(ctx):
     ctx.rule("R11.1", "one writer: every write()/flush() on a Console's file anywhere in the package executes with Console._lock held (lexically or on entry from every caller)")
     sites = _file_write_sites(ctx)
@@ -78,7 +113,7 @@ def r11_2(ctx):
     render_calls = [n for n in walk_local(f.node) if isinstance(n, ast.Call) and call_name(n).endswith("._render_buffer")]
     if not render_calls:
         raise AnchorVanished("Console._check_buffer no longer calls _render_buffer")
-    writes = [(ff, c, w) for ff, c, w in _file_write_sites(ctx) if ff is f and w.endswith(".write")]
+    writes = [(ff, c, w) for ff, c, w in _file_write_sites_ext(ctx) if ff is f and w.endswith(".write")]
     if not writes:
         ctx.violation(f.fq, "no write", f.where, "_check_buffer never writes the rendered buffer to the file")
         return
